@@ -232,6 +232,21 @@ fn cross_oracle(c: &CrossCase) -> Verdict {
             None => return Verdict::Skip("TAI instant inside an inserted leap second has no UTC count"),
         }
     }
+    // the next difference, with a right operand that reads exactly minus what the first one read (same scale), is a
+    // different instant and has its own value
+    if in_open_range(-c.f.c) && c.f.c != 0 {
+        let f2 = Epoch::from_duration(mk(-c.f.c), SCALES[c.f.s]);
+        let f2_in_e = lib!(f2.to_time_scale(e.time_scale));
+        let defn2 = count(e.duration) - count(f2_in_e.duration);
+        if in_open_range(defn2) && in_open_range(count(f2_in_e.duration)) {
+            let got2 = lib!(e - f2);
+            ensure!(
+                count(got2) == defn2,
+                "{} {} - {} {} (right after the difference with {} {}): got {}, want {}",
+                SCALE_NAMES[c.e.s], c.e.c, SCALE_NAMES[c.f.s], -c.f.c, SCALE_NAMES[c.f.s], c.f.c, count(got2), defn2
+            );
+        }
+    }
     let class = if c.e.s != c.f.s { "two-scales" } else if c.e.c < 0 { "pre-reference" } else { "plain" };
     Verdict::Pass(class, class != "plain")
 }
